@@ -126,6 +126,23 @@ theorem C16_best_sorted (files : List (UnitsFile Rat)) (conv : Converter Rat) (h
     · exact hfin _ hspec.1
     · exact hfin _ hspec.2
 
+/-- Declared names.  Without extend blocks, the units the layers declare (`declared files`: every `UnitEntry` of every
+    quantity group, in file order, with its quantity and system) are exactly the first units of the converter, and every
+    declared name, symbol and alias resolves to exactly its unit.  (With extend blocks the lists of a unit are edited as
+    `C16_extend_block_spec` says, and the keys of the edited units resolve by `C16_builder_inv`.) -/
+theorem C16_declared_resolve {α : Type} [Arith α] (files : List (UnitsFile α)) (conv : Converter α) (h : build files = .ok conv)
+    (hne : ∀ f, f ∈ files → f.extend = none) :
+    ∀ (i : Nat) (x : UnitB α), (declared files)[i]? = some x →
+      conv.units[i]? = some x.unit ∧ ∀ k, k ∈ x.unit.keys → idxGet conv.index k = some i := by
+  obtain ⟨b, c, hbc, hready, hp⟩ := (build_good files).of_ok h
+  have hd := buildCore_declared_exact files b c hne hbc
+  intro i x hx
+  obtain ⟨y, hy, e⟩ := hd i x hx
+  refine ⟨by rw [hp.units, List.getElem?_map, hy, ← e]; rfl, ?_⟩
+  intro k hk
+  rw [hp.index]
+  exact hready.1.complete i y (by simp) hy k (by rw [e]; exact hk)
+
 /-- SI-prefixed forms.  The units the layers declare are the first units of the converter, in declaration order
     (`declared files`).  For every declared unit marked `expand_si` the converter holds, for each of the six prefixes,
     one generated unit (distinct ids `m p`) whose names and symbols are EXACTLY the prefixed forms of that unit's final
